@@ -47,7 +47,7 @@ theorem searchFirst_miss {β : Type} [Inhabited β] (f : β → Bool) : ∀ (l :
 structure PagesOk (desc : Bool) (t : Target) (vals : List Int) : Prop where
   rows : vals.length = t.numRows
   sorted : vals.Pairwise (· ≤ ·)
-  cuts : hasCuts t = true
+  cuts : hasCuts false t = true
   first0 : t.firstRows.getD 0 0 = 0
   nonempty : ∀ p, p < t.firstRows.length → t.firstRows.getD p 0 < pageEnd t p
   bounds : ∀ p r, p < t.firstRows.length → t.firstRows.getD p 0 ≤ r → r < pageEnd t p →
@@ -63,7 +63,7 @@ theorem vals_mono {vals : List Int} (hs : vals.Pairwise (· ≤ ·)) {a b : Nat}
   · have : a = b := by omega
     subst this; exact Int.le_refl _
 
-theorem hasCuts_len {t : Target} (h : hasCuts t = true) :
+theorem hasCuts_len {t : Target} (h : hasCuts false t = true) :
     (t.cols.getD 0 []).length = t.firstRows.length ∧ 0 < t.firstRows.length := by
   unfold hasCuts at h
   split at h
@@ -494,10 +494,10 @@ theorem SInv.slice {ts : List RG} {s : St} (h : SInv ts s) (i : Nat) (hi : i < t
     · simp only [List.mem_singleton] at hp; subst hp; exact hi
   · simp only [hcl_a]; exact h.act
 
-theorem SInv.resolveLone {ts : List RG} {s : St} (h : SInv ts s) (desc : Bool) (rk : Option KeyRow) :
-    SInv ts (Refine.resolveLone desc ts s rk) ∧ (Refine.resolveLone desc ts s rk).active = s.active ∧
-    (Refine.resolveLone desc ts s rk).pendingLone = none ∧
-    (∀ j, s.cursors.getD j 0 = numRowsOf ts j → (Refine.resolveLone desc ts s rk).cursors.getD j 0 = numRowsOf ts j) := by
+theorem SInv.resolveLone {ts : List RG} {s : St} (h : SInv ts s) (strict desc : Bool) (rk : Option KeyRow) :
+    SInv ts (Refine.resolveLone strict desc ts s rk) ∧ (Refine.resolveLone strict desc ts s rk).active = s.active ∧
+    (Refine.resolveLone strict desc ts s rk).pendingLone = none ∧
+    (∀ j, s.cursors.getD j 0 = numRowsOf ts j → (Refine.resolveLone strict desc ts s rk).cursors.getD j 0 = numRowsOf ts j) := by
   unfold Refine.resolveLone
   cases hp : s.pendingLone with
   | none => exact ⟨h, rfl, hp, fun _ hj => hj⟩
@@ -530,22 +530,22 @@ theorem SInv.withAct {ts : List RG} {s : St} (h : SInv ts s) (a : List Nat) (p :
 
 /-- one event of the sweep keeps the invariant; finished row groups stay finished; an end event
     finishes its row group -/
-theorem SInv.stepEvent {ts : List RG} {s : St} (h : SInv ts s) (desc : Bool) (ev : Event) (hev : ev.index < ts.length) :
-    SInv ts (Refine.stepEvent desc ts s ev) ∧
-    (∀ j, s.cursors.getD j 0 = numRowsOf ts j → (Refine.stepEvent desc ts s ev).cursors.getD j 0 = numRowsOf ts j) ∧
-    (ev.start = false → (Refine.stepEvent desc ts s ev).cursors.getD ev.index 0 = numRowsOf ts ev.index) := by
+theorem SInv.stepEvent {ts : List RG} {s : St} (h : SInv ts s) (strict desc : Bool) (ev : Event) (hev : ev.index < ts.length) :
+    SInv ts (Refine.stepEvent strict desc ts s ev) ∧
+    (∀ j, s.cursors.getD j 0 = numRowsOf ts j → (Refine.stepEvent strict desc ts s ev).cursors.getD j 0 = numRowsOf ts j) ∧
+    (ev.start = false → (Refine.stepEvent strict desc ts s ev).cursors.getD ev.index 0 = numRowsOf ts ev.index) := by
   unfold Refine.stepEvent
   by_cases hst : ev.start = true
   · simp only [hst, if_true]
     -- resolve a pending lone stretch
-    obtain ⟨s1, hs1, h1, hk1⟩ : ∃ s1, s1 = (if s.pendingLone.isSome = true then Refine.resolveLone desc ts s (some ev.key) else s) ∧
+    obtain ⟨s1, hs1, h1, hk1⟩ : ∃ s1, s1 = (if s.pendingLone.isSome = true then Refine.resolveLone strict desc ts s (some ev.key) else s) ∧
         SInv ts s1 ∧ (∀ j, s.cursors.getD j 0 = numRowsOf ts j → s1.cursors.getD j 0 = numRowsOf ts j) := by
       refine ⟨_, rfl, ?_, ?_⟩
       · split
-        · exact (h.resolveLone desc _).1
+        · exact (h.resolveLone strict desc _).1
         · exact h
       · split
-        · exact (h.resolveLone desc _).2.2.2
+        · exact (h.resolveLone strict desc _).2.2.2
         · exact fun _ hj => hj
     rw [← hs1]
     have hact : ∀ x ∈ s1.active ++ [ev.index], x < ts.length := by
@@ -562,14 +562,14 @@ theorem SInv.stepEvent {ts : List RG} {s : St} (h : SInv ts s) (desc : Bool) (ev
       split <;> exact hk1 j hj
   · have hst' : ev.start = false := by simpa using hst
     simp only [hst', Bool.false_eq_true, if_false]
-    obtain ⟨s1, hs1, h1, hk1⟩ : ∃ s1, s1 = (if s.pendingLone = some ev.index then Refine.resolveLone desc ts s none else s) ∧
+    obtain ⟨s1, hs1, h1, hk1⟩ : ∃ s1, s1 = (if s.pendingLone = some ev.index then Refine.resolveLone strict desc ts s none else s) ∧
         SInv ts s1 ∧ (∀ j, s.cursors.getD j 0 = numRowsOf ts j → s1.cursors.getD j 0 = numRowsOf ts j) := by
       refine ⟨_, rfl, ?_, ?_⟩
       · split
-        · exact (h.resolveLone desc _).1
+        · exact (h.resolveLone strict desc _).1
         · exact h
       · split
-        · exact (h.resolveLone desc _).2.2.2
+        · exact (h.resolveLone strict desc _).2.2.2
         · exact fun _ hj => hj
     rw [← hs1]
     have hact : ∀ x ∈ s1.active.erase ev.index, x < ts.length :=
@@ -592,18 +592,18 @@ theorem SInv.stepEvent {ts : List RG} {s : St} (h : SInv ts s) (desc : Bool) (ev
       exact h3.act.1 i this
     · exact ⟨h3, hkeep, fun _ => hc3⟩
 
-theorem SInv.fold {ts : List RG} (desc : Bool) : ∀ (evs : List Event) (s : St), SInv ts s →
+theorem SInv.fold {ts : List RG} (strict desc : Bool) : ∀ (evs : List Event) (s : St), SInv ts s →
     (∀ ev ∈ evs, ev.index < ts.length) →
-    SInv ts (evs.foldl (Refine.stepEvent desc ts) s) ∧
+    SInv ts (evs.foldl (Refine.stepEvent strict desc ts) s) ∧
     (∀ j, (s.cursors.getD j 0 = numRowsOf ts j ∨ ∃ ev ∈ evs, ev.start = false ∧ ev.index = j) →
-      (evs.foldl (Refine.stepEvent desc ts) s).cursors.getD j 0 = numRowsOf ts j)
+      (evs.foldl (Refine.stepEvent strict desc ts) s).cursors.getD j 0 = numRowsOf ts j)
   | [], s, h, _ => ⟨h, fun j hj => by
       rcases hj with hj | ⟨ev, hev, _⟩
       · exact hj
       · cases hev⟩
   | ev :: evs, s, h, hall => by
-    obtain ⟨h1, hk1, he1⟩ := h.stepEvent desc ev (hall ev (by simp))
-    obtain ⟨h2, hk2⟩ := SInv.fold desc evs _ h1 (fun e he => hall e (by simp [he]))
+    obtain ⟨h1, hk1, he1⟩ := h.stepEvent strict desc ev (hall ev (by simp))
+    obtain ⟨h2, hk2⟩ := SInv.fold strict desc evs _ h1 (fun e he => hall e (by simp [he]))
     simp only [List.foldl_cons]
     refine ⟨h2, ?_⟩
     intro j hj
@@ -617,8 +617,8 @@ theorem SInv.fold {ts : List RG} (desc : Bool) : ∀ (evs : List Event) (s : St)
 /-- **`refineSegment` partitions every row group**: whatever the page statistics and the keys, the
     parts of row group `i` in the plan are consecutive, start at row 0 and end at its last row; a region
     holds at most one part of a row group -/
-theorem refineSegment_partition (specs : List ColSpec) (ts : List RG) (plan : List (List Part))
-    (h : refineSegment specs ts = some plan) :
+theorem refineSegment_partition (strict : Bool) (specs : List ColSpec) (ts : List RG) (plan : List (List Part))
+    (h : refineSegment strict specs ts = some plan) :
     (∀ i, i < ts.length → Refine.walk i 0 plan.flatten = some (numRowsOf ts i)) ∧
     (∀ R ∈ plan, (R.map (·.index)).Nodup ∧ ∀ p ∈ R, p.index < ts.length) := by
   unfold refineSegment at h
@@ -641,7 +641,7 @@ theorem refineSegment_partition (specs : List ColSpec) (ts : List RG) (plan : Li
       obtain ⟨i, hi, hm⟩ := this
       simp only [List.mem_cons, List.mem_singleton, List.not_mem_nil, or_false] at hm
       rcases hm with rfl | rfl <;> exact ⟨hi, trivial⟩
-    obtain ⟨hf, hdone⟩ := SInv.fold (ts := ts) ((specs.getD 0 { desc := false, nullsFirst := false }).desc)
+    obtain ⟨hf, hdone⟩ := SInv.fold (ts := ts) strict ((specs.getD 0 { desc := false, nullsFirst := false }).desc)
       _ _ h0 (fun ev hev => (hevs ev hev).1)
     obtain ⟨hc, hcc, hcr, _, _⟩ := hf.closeRegion
     rw [← h]
